@@ -542,7 +542,7 @@ structure Blocks where
   deriving DecidableEq, Repr
 
 def recordStep (b : Blocks) : Ev → Blocks
-  | .beginRequest => { b with curReq := [] }
+  | .beginRequest => { b with curReq := [], curResp := [] }   -- a new recorder session per HTTP session
   | .requestData d => { b with curReq := b.curReq ++ d }
   | .endRequest => { b with request := b.request ++ [b.curReq] }
   | .beginResponse => b
